@@ -81,6 +81,7 @@ Section Send.
   Variable G : Bits.Model.Ecmath.point.
   Variable sha256 ripemd160 : bytes -> bytes.
   Variable scriptpubkey : bytes -> result bytes.        (* bits.script.scriptpubkey (C08) *)
+  Variable is_address : bytes -> bool.                  (* bits.is_point(x) or bits.is_addr(x): public key or address (C14/C07/C06) *)
 
   Definition hash160 (m : bytes) : bytes := ripemd160 (sha256 m).        (* bits.crypto.hash160 *)
 
@@ -147,13 +148,14 @@ Section Send.
       '(sgs, d2) <- sign_keys d1 r msg flag pre ;;
       Ok (sg :: sgs, d2)
     end.
-  Fixpoint sign_msgs (draws : list Z) (keys : list bytes) (msgs : list bytes) (flag : option Z)
+  (* [[bits.sig(key, msg, ...) for key in keys] for msg in msgs] *)
+  Fixpoint sign_msgs (draws : list Z) (keys : list bytes) (msgs : list bytes) (flag : option Z) (pre : bool)
     : result (list (list bytes)) :=
     match msgs with
     | [] => Ok []
     | m :: r =>
-      '(sgs, d1) <- sign_keys draws keys m flag true ;;
-      rest <- sign_msgs d1 keys r flag ;;
+      '(sgs, d1) <- sign_keys draws keys m flag pre ;;
+      rest <- sign_msgs d1 keys r flag pre ;;
       Ok (sgs :: rest)
     end.
 
@@ -168,13 +170,64 @@ Section Send.
       l <- to_be_chk 1 (lenZ (ki_redeem k)) ;;           (* len(redeem_script).to_bytes(1, "big") *)
       Ok (l ++ ki_redeem k).
 
-  (* msgs = [witness_message(txins, utxo["vout"], round(utxo["amount"] * 1e8), scriptcode, txouts, sighash_flag=flag)
-             for utxo in sender_txoutset["unspents"]]           -- version and locktime take their defaults 1 and 0 *)
-  Definition segwit_msgs (txins txouts : list bytes) (scriptcode : bytes) (flag : option Z) (unspents : list utxo)
+  (* msgs = [witness_message(txins, txin_index, round(utxo["amount"] * 1e8), scriptcode, txouts, version=version,
+                             locktime=locktime, sighash_flag=flag)
+             for txin_index, utxo in enumerate(selected_utxos)]            ([j] = the index of the first element) *)
+  Fixpoint segwit_msgs (txins txouts : list bytes) (scriptcode : bytes) (version locktime : Z) (flag : option Z)
+           (j : Z) (selected : list utxo) : result (list bytes) :=
+    match selected with
+    | [] => Ok []
+    | u :: r =>
+      amt <- sat_of_btc (u_amount u) ;;
+      m <- Bits.Model.Bip143.witness_message sha256 txins j amt scriptcode txouts version locktime flag ;;
+      rest <- segwit_msgs txins txouts scriptcode version locktime flag (j + 1) r ;;
+      Ok (m :: rest)
+    end.
+
+  (* ---- tx.legacy_sig_message(txins, txin_index, scriptcode, txouts, version, locktime, sighash_flag) ---- *)
+  Definition zero_sequence : bytes := [x00; x00; x00; x00].
+  (* the list comprehension over enumerate(txins); [i] = index of the first element *)
+  Fixpoint legacy_ins (none_or_single : bool) (txin_index : Z) (scriptcode : bytes) (i : Z) (txins : list bytes)
     : result (list bytes) :=
-    mapM (fun u =>
-            amt <- sat_of_btc (u_amount u) ;;
-            Bits.Model.Bip143.witness_message sha256 txins (u_vout u) amt scriptcode txouts 1 0 flag) unspents.
+    match txins with
+    | [] => Ok []
+    | t :: r =>
+      x <- (if i =? txin_index then Bits.Model.Tx.txin (firstn 36 t) scriptcode (lastn 4 t)
+            else Bits.Model.Tx.txin (firstn 36 t) [] (if none_or_single then zero_sequence else lastn 4 t)) ;;
+      rest <- legacy_ins none_or_single txin_index scriptcode (i + 1) r ;;
+      Ok (x :: rest)
+    end.
+
+  Definition legacy_sig_message (txins : list bytes) (txin_index : Z) (scriptcode : bytes) (txouts : list bytes)
+             (version locktime sighash_flag : Z) : result bytes :=
+    if negb ((0 <=? txin_index) && (txin_index <? lenZ txins)) then Err IndexE else    (* not in range(len(txins)) *)
+    let sighash_base := Z.land sighash_flag 0x1F in
+    let none_or_single := (sighash_base =? 2) || (sighash_base =? 3) in
+    if (sighash_base =? 3) && (lenZ txouts <=? txin_index) then Err ValueE else        (* SIGHASH_SINGLE without output *)
+    txins_ <- legacy_ins none_or_single txin_index scriptcode 0 txins ;;
+    txins2 <- (if Z.land sighash_flag 0x80 =? 0 then Ok txins_
+               else x <- Bits.Model.Bip143.py_index txins_ txin_index ;; Ok [x]) ;;
+    txouts2 <- (if sighash_base =? 2 then Ok []
+                else if sighash_base =? 3 then
+                  blank <- Bits.Model.Tx.txout 0xFFFFFFFFFFFFFFFF [] ;;
+                  o <- Bits.Model.Bip143.py_index txouts txin_index ;;
+                  Ok (repeat blank (Z.to_nat txin_index) ++ [o])
+                else Ok txouts) ;;
+    Bits.Model.Tx.tx_raw txins2 txouts2 version locktime [].
+
+  (* msgs = [legacy_sig_message(txins, txin_index, bytes.fromhex(txin_deser(txin_)[0]["scriptsig"]), txouts, version=,
+                                locktime=, sighash_flag=) for txin_index, txin_ in enumerate(txins)]
+     [all] = txins (the whole list), [j] / [rest] = the enumeration state *)
+  Fixpoint legacy_msgs (all txouts : list bytes) (version locktime flag : Z) (j : Z) (rest : list bytes)
+    : result (list bytes) :=
+    match rest with
+    | [] => Ok []
+    | t :: r =>
+      '(d, _) <- Bits.Model.Tx.txin_deser t ;;
+      m <- legacy_sig_message all j (Bits.Model.Tx.ti_script d) txouts version locktime flag ;;
+      ms <- legacy_msgs all txouts version locktime flag (j + 1) r ;;
+      Ok (m :: ms)
+    end.
 
   (* ["OP_0"] if decode_script(redeem_script)[-1] == "OP_CHECKMULTISIG" else [] *)
   Definition multisig_dummy (redeem : bytes) : result (list bytes) :=
@@ -184,58 +237,82 @@ Section Send.
     | last :: _ => Ok (if bytes_eqb last Bits.Model.Script.s_CHECKMULTISIG then [Bits.Model.Script.s_OP_0] else [])
     end.
 
-  (* sender_witnesses for range(len(txins)), f i = the script args of input i *)
-  Fixpoint witnesses_for (nins : nat) (i : nat) (f : nat -> result (list bytes)) : result (list bytes) :=
+  (* [f(i) for i in range(len(txins))] *)
+  Fixpoint for_inputs (nins : nat) (i : nat) (f : nat -> result bytes) : result (list bytes) :=
     match nins with
     | O => Ok []
-    | S k => args <- f i ;; w <- script_w args ;; rest <- witnesses_for k (S i) f ;; Ok (w :: rest)
+    | S k => x <- f i ;; rest <- for_inputs k (S i) f ;; Ok (x :: rest)
     end.
 
-  (* the final scriptSig and witnesses: (sender_scriptsig, sender_witnesses).
-     [leftover] = the value the loop variable sender_scriptsig still has (None: the loop body never ran) *)
-  Definition assemble (k : keyinfo) (leftover : option bytes) (nins : nat)
-             (legacy_sigs : list bytes) (segwit_sigs : list (list bytes)) : result (bytes * list bytes) :=
+  (* the final scriptSigs (one per input) and witnesses: (sender_scriptsigs, sender_witnesses).
+     [leftover] = the value the loop variable sender_scriptsig still has (None: the loop body never ran);
+     [sigs] = signatures[i][k]: input i, key k *)
+  Definition assemble (k : keyinfo) (leftover : option bytes) (nins : nat) (sigs : list (list bytes))
+    : result (list bytes * list bytes) :=
     let ty := ki_type k in
-    let left := of_option OtherE leftover in                            (* NameError *)
+    left <- of_option OtherE leftover ;;                               (* [sender_scriptsig] * len(txins): NameError *)
+    let default_ss := repeat left nins in
     if bytes_eqb ty k_p2pk then
-      s0 <- hd_r legacy_sigs ;; ss <- Bits.Model.Script.script [hex_of_bytes s0] ;; Ok (ss, [])
+      ss <- for_inputs nins 0 (fun i =>
+              sgs <- nth_r sigs i ;; s0 <- hd_r sgs ;; Bits.Model.Script.script [hex_of_bytes s0]) ;;
+      Ok (ss, [])
     else if bytes_eqb ty k_multisig then
-      ss <- Bits.Model.Script.script (Bits.Model.Script.s_OP_0 :: map hex_of_bytes legacy_sigs) ;; Ok (ss, [])
+      ss <- for_inputs nins 0 (fun i =>
+              sgs <- nth_r sigs i ;; Bits.Model.Script.script (Bits.Model.Script.s_OP_0 :: map hex_of_bytes sgs)) ;;
+      Ok (ss, [])
     else if bytes_eqb ty k_p2pkh then
       let compressed := negb (Nat.eqb (List.length (ki_data k)) 0) in       (* True if datums[0] else False *)
-      s0 <- hd_r legacy_sigs ;;
-      k0 <- hd_r (ki_keys k) ;;
-      pk <- pub k0 compressed ;;
-      ss <- Bits.Model.Script.script [hex_of_bytes s0; hex_of_bytes pk] ;; Ok (ss, [])
+      ss <- for_inputs nins 0 (fun i =>
+              sgs <- nth_r sigs i ;; s0 <- hd_r sgs ;;
+              k0 <- hd_r (ki_keys k) ;;
+              pk <- pub k0 compressed ;;
+              Bits.Model.Script.script [hex_of_bytes s0; hex_of_bytes pk]) ;;
+      Ok (ss, [])
     else if is_kind ty [k_p2wpkh; k_p2sh_p2wpkh] then
-      ws <- witnesses_for nins 0 (fun i =>
-              sgs <- nth_r segwit_sigs i ;;
+      ws <- for_inputs nins 0 (fun i =>
+              sgs <- nth_r sigs i ;;
               s0 <- hd_r sgs ;;
               k0 <- hd_r (ki_keys k) ;;
               pk <- pub k0 true ;;
-              Ok [hex_of_bytes s0; hex_of_bytes pk]) ;;
-      ss <- left ;; Ok (ss, ws)
+              script_w [hex_of_bytes s0; hex_of_bytes pk]) ;;
+      Ok (default_ss, ws)
     else if is_kind ty [k_p2sh; k_p2wsh; k_p2sh_p2wsh] then
       dummy <- multisig_dummy (ki_redeem k) ;;
       if bytes_eqb ty k_p2sh then
-        ss <- Bits.Model.Script.script (dummy ++ map hex_of_bytes legacy_sigs ++ [hex_of_bytes (ki_redeem k)]) ;;
+        ss <- for_inputs nins 0 (fun i =>
+                sgs <- nth_r sigs i ;;
+                Bits.Model.Script.script (dummy ++ map hex_of_bytes sgs ++ [hex_of_bytes (ki_redeem k)])) ;;
         Ok (ss, [])
       else
-        ws <- witnesses_for nins 0 (fun i =>
-                sgs <- nth_r segwit_sigs i ;;
-                Ok (dummy ++ map hex_of_bytes sgs ++ [hex_of_bytes (ki_redeem k)])) ;;
-        ss <- left ;; Ok (ss, ws)
+        ws <- for_inputs nins 0 (fun i =>
+                sgs <- nth_r sigs i ;;
+                script_w (dummy ++ map hex_of_bytes sgs ++ [hex_of_bytes (ki_redeem k)])) ;;
+        Ok (default_ss, ws)
     else Err OtherE.            (* no other addr_type exists in WIF_TYPE_COMBINATIONS; sender_witnesses undefined *)
 
-  (* txins_prime: every txin re-parsed with txin_deser and rebuilt with the final scriptSig *)
+  (* txins_prime: every txin re-parsed with txin_deser and rebuilt with ITS final scriptSig *)
   Definition rebuild_txin (final_ss : bytes) (txi : bytes) : result bytes :=
     '(d, _) <- Bits.Model.Tx.txin_deser txi ;;
     op <- Bits.Model.Tx.outpoint (Bits.Model.Tx.ti_txid d) (Bits.Model.Tx.ti_vout d) ;;
     Bits.Model.Tx.txin op final_ss Bits.Model.Tx.default_sequence.
+  (* for txi, sender_scriptsig in zip(txins, sender_scriptsigs) *)
+  Fixpoint rebuild_txins (txins sss : list bytes) : result (list bytes) :=
+    match txins, sss with
+    | t :: tr, s :: sr => x <- rebuild_txin s t ;; rest <- rebuild_txins tr sr ;; Ok (x :: rest)
+    | _, _ => Ok []
+    end.
 
   (* ---- everything before signing: (amount_to_send, selected utxos with their txins, total_amount, txouts) ---- *)
   Record unsigned := mk_unsigned {
     us_to_send : Z; us_selected : list (utxo * bytes); us_total : Z; us_txouts : list bytes }.
+
+  (* the change script: scriptpubkey(change_addr) if change_addr, else scriptpubkey(sender_addr) when the sender is a public
+     key or an address, else the sender's raw scriptPubKey itself *)
+  Definition change_script (sender_addr : bytes) (change_addr : option bytes) : result bytes :=
+    match change_addr with
+    | Some (c :: r) => scriptpubkey (c :: r)                          (* `if change_addr` *)
+    | _ => if is_address sender_addr then scriptpubkey sender_addr else Ok sender_addr
+    end.
 
   Definition build_unsigned (sender_addr recipient_addr : bytes) (change_addr : option bytes) (ki : option keyinfo)
              (send_fraction : spec_float) (miner_fee : Z) (total_amount : spec_float) (unspents : list utxo)
@@ -244,15 +321,26 @@ Section Send.
     to_send <- amount_to_send send_fraction total_available ;;
     '(sel, total_sel) <- select (fun u => sat_of_btc (u_amount u)) (mk_txin ki) unspents to_send 0 ;;
     recipient_spk <- scriptpubkey recipient_addr ;;
-    change_spk <- scriptpubkey (match change_addr with
-                               | Some (c :: r) => c :: r           (* `if change_addr` *)
-                               | _ => sender_addr
-                               end) ;;
+    change_spk <- change_script sender_addr change_addr ;;
     o1 <- Bits.Model.Tx.txout (to_send - miner_fee) recipient_spk ;;
     outs <- (if total_sel - to_send >=? dust_limit
              then o2 <- Bits.Model.Tx.txout (total_sel - to_send) change_spk ;; Ok [o1; o2]
              else Ok [o1]) ;;
     Ok (mk_unsigned to_send sel total_sel outs).
+
+  (* the signatures: signatures[i][k] for selected input i and key k *)
+  Definition sign_inputs (k : keyinfo) (flag : option Z) (version locktime : Z) (u : unsigned) (draws : list Z)
+    : result (list (list bytes)) :=
+    let txins := map snd (us_selected u) in
+    let txouts := us_txouts u in
+    if is_kind (ki_type k) [k_p2wpkh; k_p2wsh; k_p2sh_p2wpkh; k_p2sh_p2wsh] then
+      sc <- scriptcode_of k ;;
+      msgs <- segwit_msgs txins txouts sc version locktime flag 0 (map fst (us_selected u)) ;;
+      sign_msgs draws (ki_keys k) msgs flag true
+    else
+      f <- of_option TypeE flag ;;                                    (* unreachable: decode_keys demands a flag *)
+      msgs <- legacy_msgs txins txouts version locktime f 0 txins ;;
+      sign_msgs draws (ki_keys k) msgs flag false.
 
   (* ---- bits.tx.send_tx ---- *)
   Definition send_tx (sender_addr recipient_addr : bytes) (change_addr : option bytes) (sender_keys : list bytes)
@@ -269,21 +357,13 @@ Section Send.
     match ki with
     | None => Ok tx_
     | Some k =>
-      '(legacy_sigs, segwit_sigs) <-
-        (if is_kind (ki_type k) [k_p2wpkh; k_p2wsh; k_p2sh_p2wpkh; k_p2sh_p2wsh] then
-           sc <- scriptcode_of k ;;
-           msgs <- segwit_msgs txins txouts sc flag unspents ;;
-           sigs <- sign_msgs draws (ki_keys k) msgs flag ;;
-           Ok ([], sigs)
-         else
-           '(sigs, _) <- sign_keys draws (ki_keys k) tx_ flag false ;;
-           Ok (sigs, [])) ;;
+      sigs <- sign_inputs k flag version locktime u draws ;;
       leftover <- (match rev (us_selected u) with
                    | [] => Ok None
                    | (ul, _) :: _ => ss <- loop_scriptsig ki ul ;; Ok (Some ss)
                    end) ;;
-      '(final_ss, wits) <- assemble k leftover (List.length txins) legacy_sigs segwit_sigs ;;
-      txins' <- mapM (rebuild_txin final_ss) txins ;;
+      '(sss, wits) <- assemble k leftover (List.length txins) sigs ;;
+      txins' <- rebuild_txins txins sss ;;
       Bits.Model.Tx.tx_raw txins' txouts version locktime wits
     end.
 End Send.
